@@ -63,6 +63,9 @@ type FuncCtx struct {
 	inlineDepth int
 	curState *State
 	reboundSlices map[string]*Value
+	loopGuards []*loopGuard
+	ghostNames map[string]*Value
+	entryAlloc string
 }
 
 type callSite struct {
@@ -173,6 +176,20 @@ func (e *Engine) verifyFunc(pkg *packages.Package, decl *ast.FuncDecl, profile s
 		fc.name += "[" + profile + "]"
 	}
 	e.curFunc = fc.name
+	e.onStore = fc.storeHook
+	if e.funcFacts == nil {
+		e.funcFacts = map[string][]string{}
+	}
+	// the entry heap is well formed: objects that exist at entry only refer to objects that exist at entry
+	e.onBaseRefArray = func(arr string) {
+		if fc.entry == nil && fc.entryAlloc == "" {
+			return
+		}
+		e.nfresh++
+		r := smtSym(fmt.Sprintf("r!b%d", e.nfresh))
+		e.funcFacts[fc.name] = append(e.funcFacts[fc.name],
+			arr+"|(forall (("+r+" Int)) (! (=> (and (<= 0 "+r+") (< "+r+" "+fc.entryAlloc+")) (and (<= 0 (select "+arr+" "+r+")) (< (select "+arr+" "+r+") "+fc.entryAlloc+"))) :pattern ((select "+arr+" "+r+"))))")
+	}
 	start := len(e.obls)
 	defer func() {
 		if r := recover(); r != nil {
@@ -318,6 +335,7 @@ func (fc *FuncCtx) entryState() *State {
 	e := fc.e
 	st := &State{vars: map[types.Object]*Value{}, ghost: map[string]*Value{}, heap: map[string][]string{}, storeLog: map[string]map[string]bool{}}
 	st.alloc = e.fresh("alloc0", "Int")
+	fc.entryAlloc = st.alloc
 	st.assume("(> " + st.alloc + " 0)")
 	bind := func(v *types.Var) {
 		if v == nil {
@@ -516,6 +534,9 @@ func (fc *FuncCtx) runGhostAt(st *State, where, callee string, n int, when strin
 func (fc *FuncCtx) runGhostStmt(st *State, gs *GhostStmt, pos token.Pos, anchor string) {
 	e := fc.e
 	names := map[string]*Value{}
+	for k, v := range fc.ghostNames {
+		names[k] = v
+	}
 	if fc.retVals != nil {
 		for i, n := range fc.resNames {
 			if i < len(fc.retVals) {
